@@ -2,7 +2,7 @@
 From Coq Require Import List Arith ZArith Bool.
 Import ListNotations.
 From PF Require Import Arr Net SweepDown SweepUp Rank Fill FillSpec Stream Ops OpsSpec.
-From PF Require Import GenLoopsEq GenOpsEq.
+From PF Require Import GenLoopsEq GenOpsEq GenFloodplainsEq.
 From PFG Require Import GenLoops.
 Local Open Scope Z_scope.
 
@@ -126,3 +126,14 @@ Theorem gen_stream_distance_eq : forall ds sq mask real steplen,
   gen_stream_distance ds sq mask real steplen = stream_distance ds sq mask (if real then steplen else fun _ _ => 1).
 Proof. exact GenOpsEq.gen_stream_distance_eq. Qed.
 Print Assumptions gen_stream_distance_eq.
+
+(* dem.floodplains regenerated from the source IS the model: the two float expressions of the source, uparea[i] >= upa_min and
+   uparea[i] ** b, are abstract operations (fbool Fge, fval Fpow) on an abstract type F of float values; whenever they agree
+   with the input fields `stream` and `hmax` of the model on the ordered cells, the generated kernel equals it *)
+Theorem gen_floodplains_eq : forall (F : Type) ds sq elv (uparea : list F) (upa_min b fdef : F) fbool fval stream hmax,
+  length uparea = length ds ->
+  (forall i, In i sq -> fbool Fge (nth i uparea fdef) upa_min = nth i stream false) ->
+  (forall i, In i sq -> fval Fpow (nth i uparea fdef) b = nth i hmax 0) ->
+  gen_floodplains F ds sq elv uparea upa_min b fdef fbool fval = floodplains ds sq stream hmax elv.
+Proof. exact GenFloodplainsEq.gen_floodplains_eq. Qed.
+Print Assumptions gen_floodplains_eq.
